@@ -643,8 +643,156 @@ def cmd_c08(out_path, prop="C08"):
     return rec.finish(out_path)
 
 
+def sig_diff_components(a, b):
+    """number of differing components between two generated signatures (None if arity differs by >1)"""
+    import vgen_sig as g
+    n = 0
+    if a["unsafe"] != b["unsafe"]:
+        n += 1
+    if a["abi"] != b["abi"]:
+        n += 1
+    if g.render_ty(a["ret"]) != g.render_ty(b["ret"]):
+        n += 1
+    pa = [g.render_ty(p) for p in a["params"]]
+    pb = [g.render_ty(p) for p in b["params"]]
+    if len(pa) == len(pb):
+        n += sum(1 for x, y in zip(pa, pb) if x != y)
+    elif abs(len(pa) - len(pb)) == 1:
+        longer, shorter = (pa, pb) if len(pa) > len(pb) else (pb, pa)
+        n += 1 if any(longer[:k] + longer[k + 1:] == shorter for k in range(len(longer))) else 3
+    else:
+        n += 3
+    return n
+
+
+def cmd_family(out_path, prop):
+    sys.path.insert(0, os.path.dirname(os.path.abspath(__file__)))
+    import vgen_sig as g
+    n = scale(40, 140)
+    rule = ("G: seeded grammar family of N function-pointer types (arity 0-6; integers, floats, bool, char, (), &T/&mut T/*const T/*mut T, &str, slices, arrays, tuples, Option, two user structs, nested fn pointers, &dyn Fn; safe/unsafe; ABI Rust/C/system; look-alike returns) each with a target_i/replacement_i pair, compiled against the current tree; ALL ordered pairs (i, j) x every macro form each side supports (func!(f, T), func!(fn (f)(..) -> R), func_info:, unsafe{} / extern spellings, closure!) through when_called + will_execute_raw, plus async output pairs; oracle: same member => accepted and the call reaches the replacement; different member => panic containing `Signature mismatch`; members whose compiler-rendered names coincide are exercised, not judged; non-trivial = judged pairs that differ in exactly one component plus all identical pairs; distinct by (i, j, forms)"
+            if prop == "C09" else
+            "G: forced boolean over every member of the compiled signature family (return types incl. look-alikes `fn() -> bool`, `&dyn Fn() -> bool`, `Option<bool>`, `&bool`) through every target-side macro form: accepted iff the declared return type is exactly bool; non-trivial = member whose rendering ends in `-> bool` without returning bool, or a bool function; distinct by (member, form)")
+    rec = Recorder(prop, "g-sigfamily", rule)
+    fam = g.build_family(SEED, n)
+    src = g.gen_program(fam)
+    res, lib_errors, stderr_tail = build_crate("c09fam", {"family": src})
+    if lib_errors:
+        rec.inconclusive.append(f"the library itself does not compile: {lib_errors[0]['message']}")
+        return rec.finish(out_path)
+    if not res["family"]["ok"]:
+        errs = res["family"]["errors"]
+        rec.inconclusive.append("generated family does not compile (harness error): " + (errs[0]["rendered"][:1500] if errs else stderr_tail[-800:]))
+        return rec.finish(out_path)
+    p = subprocess.run([res["family"]["exe"]], stdout=subprocess.PIPE, stderr=subprocess.PIPE, text=True, timeout=1200)
+    if p.returncode != 0:
+        rec.eval(lambda: {"outcome": "family binary died", "rc": p.returncode})
+        msg = rec.fail(f"{prop}/compiled/died", f"the family binary died with status {p.returncode}; last lines {p.stdout.splitlines()[-3:]} stderr {p.stderr[-300:]}")
+        if msg:
+            rec.violation(f"{prop}/compiled/died", msg, {"FamilyCase": {"seed": SEED, "n": n}})
+        return rec.finish(out_path)
+    names = {}
+    rows = []
+    for l in p.stdout.splitlines():
+        f = l.split("\t")
+        if len(f) < 8:
+            continue
+        kind, i, j, ft, fr, ok, hit, msg = f[0], int(f[1]), int(f[2]), f[3], f[4], f[5] == "true", int(f[6]), f[7]
+        if kind == "name":
+            names[i] = msg
+        else:
+            rows.append((kind, i, j, ft, fr, ok, hit, msg))
+    # self-check of the grammar's rendering against rustc's type_name (informational)
+    mism = [(g.render_sig(fam[i]), names[i]) for i in names if g.render_sig(fam[i]).replace("'static ", "").replace(" + 'static", "") != names[i].replace("family::", "").replace("core::option::", "").replace("core::ops::function::", "").replace("alloc::string::", "")]
+    rec.count("type_name_rendering_differs", len(mism))
+    if mism:
+        rec.notes.append(f"rustc renders {len(mism)} of {len(names)} family members differently from the grammar (lifetime binders etc.), e.g. {mism[0][0]!r} -> {mism[0][1]!r}; judged by member identity, never by string")
+    for (kind, i, j, ft, fr, ok, hit, msg) in rows:
+        if prop == "C09" and kind == "pair":
+            same = i == j
+            samename = names.get(i) == names.get(j)
+            rec.eval(lambda: {"target": g.render_sig(fam[i]), "replacement": g.render_sig(fam[j]), "forms": [ft, fr], "accepted": ok, "message": msg[:120]})
+            if not same and samename:
+                rec.count("exercised_not_judged_same_rendering")
+                continue
+            if same:
+                want_hit = 3000 if fr == "closure" else 2000 + j
+                if not ok:
+                    m = rec.fail("C09/compiled/identical-pair-refused", f"identically written pair refused: {g.render_sig(fam[i])} via forms {ft}/{fr}: {msg}")
+                elif hit != want_hit:
+                    m = rec.fail("C09/compiled/accepted-but-not-redirected", f"accepted pair {g.render_sig(fam[i])} via {ft}/{fr}: the call recorded {hit}, expected {want_hit}")
+                else:
+                    m = None
+                rec.cls("identical/" + ft + "/" + fr)
+                rec.nontriv(["same", i, ft, fr])
+            else:
+                d = sig_diff_components(fam[i], fam[j])
+                if ok:
+                    m = rec.fail("C09/compiled/different-pair-accepted", f"structurally different pair accepted: target {g.render_sig(fam[i])} vs replacement {g.render_sig(fam[j])} (forms {ft}/{fr}, {d} differing component(s))")
+                elif "Signature mismatch" not in msg:
+                    m = rec.fail("C09/compiled/refusal-without-proper-message", f"refusal of {g.render_sig(fam[i])} vs {g.render_sig(fam[j])} panicked with {msg!r}")
+                else:
+                    m = None
+                rec.cls("different/%s-component" % ("1" if d == 1 else "2" if d == 2 else "3+"))
+                if d == 1:
+                    rec.nontriv(["diff", i, j, ft, fr])
+            if m:
+                rec.violation(m.split("]")[0][1:], m, {"FamilyCase": {"seed": SEED, "n": n, "i": i, "j": j, "forms": [ft, fr]}})
+                break
+        elif prop == "C09" and kind == "async":
+            rec.eval(lambda: {"async_pair": [i, j], "accepted": ok})
+            m = None
+            if (i == j) != ok:
+                m = rec.fail("C09/compiled/async-output-" + ("refused" if i == j else "accepted"), f"async output pair ({i},{j}): accepted={ok} msg={msg!r}")
+            elif not ok and "Signature mismatch" not in msg:
+                m = rec.fail("C09/compiled/refusal-without-proper-message", f"async refusal message {msg!r}")
+            rec.cls("async/" + ("same" if i == j else "different"))
+            rec.nontriv(["async", i, j])
+            if m:
+                rec.violation(m.split("]")[0][1:], m, {"FamilyCase": {"seed": SEED, "n": n, "async": [i, j]}})
+                break
+        elif prop == "C09" and kind == "homonym":
+            rec.eval(lambda: {"homonym_block_local_structs": "fn(S) -> u8 twice", "accepted": ok})
+            rec.cls("homonym-nominal-types")
+            if ok:
+                m = rec.fail("C09/compiled/homonym-nominal-types", "two distinct block-local structs named S (1 byte vs 24 bytes) in fn(S) -> u8: type_name renders both identically and the installation is accepted")
+                if m:
+                    rec.violation(m.split("]")[0][1:], m, {"FamilyCase": {"seed": SEED, "n": n, "homonym": True}})
+                    break
+        elif prop == "C10" and kind == "bool":
+            is_bool = fam[i]["ret"].kind == "prim" and fam[i]["ret"].a[0] == "bool"
+            looks = g.render_sig(fam[i]).rstrip().endswith("-> bool") or names.get(i, "").rstrip().endswith("-> bool")
+            rec.eval(lambda: {"signature": g.render_sig(fam[i]), "form": ft, "accepted": ok})
+            rec.cls("returns-bool" if is_bool else ("look-alike" if looks else "other"))
+            m = None
+            if is_bool and not ok:
+                m = rec.fail("C10/compiled/bool-function-refused", f"{g.render_sig(fam[i])} via {ft}: {msg}")
+            if not is_bool and ok:
+                m = rec.fail("C10/compiled/non-bool-accepted" + ("/ends-with-arrow-bool" if looks else ""), f"will_return_boolean accepted {g.render_sig(fam[i])} (rustc name {names.get(i)!r}) via {ft}")
+            if is_bool or looks:
+                rec.nontriv(["bool", i, ft])
+            if m:
+                rec.violation(m.split("]")[0][1:], m, {"FamilyCase": {"seed": SEED, "n": n, "bool_member": i, "form": ft}})
+                break
+    rec.exhaustive_parts.append(f"all ordered pairs of the {len(fam)}-member family x all macro forms (exhaustive over pairs, seeded over the family)")
+    return rec.finish(out_path)
+
+
 def cmd_replay(path):
     d = json.load(open(path))
+    if "FamilyCase" in d["case"]:
+        # the family is a function of the seed: re-run the whole (cheap) family check
+        os.environ["VERIF_SEED"] = str(d["case"]["FamilyCase"].get("seed", 1))
+        global SEED
+        SEED = int(os.environ["VERIF_SEED"])
+        out = os.path.join(WORK, "partials", "replay-family.json")
+        rc = cmd_family(out, d.get("property", "C09"))
+        r = json.load(open(out))
+        if r["violations"]:
+            print("replay:", r["violations"][0]["message"][:600])
+            print(f"VIOLATION property={d.get('property')} replay={path}")
+            return 1
+        print("replay: property holds on this family (known-finding hits: %s)" % r["known_hits"])
+        return 0 if rc in (0,) else rc
     case = d["case"].get("ArmCase")
     prop = d.get("property", "C08")
     if not case:
@@ -700,6 +848,8 @@ def main():
     prop = sys.argv[sys.argv.index("--property") + 1] if "--property" in sys.argv else None
     if cmd == "c08":
         return cmd_c08(out or os.path.join(WORK, "partials", "adhoc-g.json"), prop or "C08")
+    if cmd == "family":
+        return cmd_family(out or os.path.join(WORK, "partials", "adhoc-fam.json"), prop or "C09")
     if cmd == "replay":
         return cmd_replay(sys.argv[2])
     print(__doc__)
